@@ -103,6 +103,20 @@ def decompile_method(em):
         return "<<raises %s>>" % type(e).__name__
 
 
+def decompile_method_twice(em, dx):
+    """the same DvMethod object processed twice (DvMachine.process() / DvClass.process() called again does exactly this): the text of the
+    SECOND run - 'which other code was decompiled earlier in the process' includes the method itself"""
+    from androguard.decompiler.decompile import DvMethod
+    try:
+        z = DvMethod(dx.get_method(em))
+        z.process()
+        z.get_source()
+        z.process()
+        return z.get_source() or ""
+    except Exception as e:
+        return "<<raises %s>>" % type(e).__name__
+
+
 def child(ctx, arg):
     """arg: inputs, quick, perturb (seed or None), junk (seed or None), shuffle (seed or None), gc (bool), label"""
     from vf.checks import c21
@@ -138,13 +152,21 @@ def child(ctx, arg):
                     junk.churn()
                 key = "%s|%s->%s%s" % (name, em.get_class_name(), em.get_name(), em.get_descriptor().replace(" ", ""))
                 before = sum(HP.STATE["sites"].values())
-                hashes[key] = digest(decompile_method(em))
+                hashes[key] = digest(decompile_method_twice(em, dx) if arg.get("twice") else decompile_method(em))
                 if sum(HP.STATE["sites"].values()) != before:
                     nontrivial.append(key)
                 nmeth += 1
             if arg.get("class_source", False) or len(data) < 20000 or name.startswith("gen:"):
                 try:
-                    src = c.get_source()
+                    if arg.get("twice"):
+                        from androguard.decompiler.decompile import DvClass
+                        z = DvClass(c, dx)
+                        z.process()
+                        z.get_source()
+                        z.process()
+                        src = z.get_source()
+                    else:
+                        src = c.get_source()
                 except Exception as e:
                     src = "<<raises %s>>" % type(e).__name__
                 hashes["%s|%s (class source)" % (name, cn)] = digest(src)
@@ -214,6 +236,7 @@ def child_configs(quick):
         {"label": "D hashseed=random junk=3", "hashseed": "random", "junk": 3},
         {"label": "E hashseed=2 perturb=1", "hashseed": "2", "perturb": 1},
         {"label": "F hashseed=0 perturb=2 shuffled", "hashseed": "0", "perturb": 2, "shuffle": 2},
+        {"label": "T hashseed=0 every object processed twice", "hashseed": "0", "twice": True},
     ]
     if not quick:
         cfg += [
@@ -231,6 +254,10 @@ def classify_trigger(labels_by_hash, cfgs):
     """which kind of variation separates the children"""
     by_label = {c["label"]: c for c in cfgs}
     groups = list(labels_by_hash.values())
+    once = [[l for l in g if not by_label[l].get("twice")] for g in groups]
+    if len([g for g in once if g]) == 1:
+        # all children that decompile each object once agree; only the child that runs process() twice on the same object differs
+        return "second-process-of-the-same-object-differs"
     plain = [[l for l in g if by_label[l].get("perturb") is None] for g in groups]
     plain = [g for g in plain if g]
     if len(plain) >= 2:
